@@ -42,8 +42,13 @@ class Hist5(ig.Hist):
     def nested_kw(self, sentinel_rate=0.15):
         kw = self.k1_kw(False)
         if self.rng.random() < sentinel_rate:
-            kw.append((3, self.rng.choice([MISSING, UNCHANGED])))
-        return kw
+            kw = [p for p in kw if p[0] != 3] + [(3, self.rng.choice([MISSING, UNCHANGED]))]
+        seen, out = set(), []
+        for a, v in kw:          # a Python call cannot repeat a keyword
+            if a not in seen:
+                seen.add(a)
+                out.append((a, v))
+        return out
 
     # ---- one scalar-helper call in a documented call form
     def scalar_call(self, x, cid, a, kind, inplace=None):
